@@ -42,6 +42,13 @@ THEOREMS = [
 ]
 
 
+# theorems `regenerated definition = hand-written model` (CvProps/C20g.lean; translator harness/extract/pylean.py)
+GEN_THEOREMS = []
+
+
+from cv.pygen_corr import gen_tie  # noqa: E402
+
+
 def L(xs):
     return " ".join(map(str, xs))
 
@@ -103,6 +110,8 @@ def main():
     ck = Check("C20")
     rng = ck.rng
     ck.lean_obligations("CvProps.C20", THEOREMS)
+    if not ck.replay:
+        gen_tie(ck, "C20g", GEN_THEOREMS, ("perm",))
     drv = ck.driver()
     if ck.replay:
         body = json.load(open(os.path.join(VERIF, ck.replay) if not os.path.isabs(ck.replay) else ck.replay))
